@@ -247,9 +247,10 @@ static void labels_for(const Grammar& g, const Prepared& pr, Stats& st, const GC
     const std::string& strategy = c.strategy;
     st.label("strategy:" + strategy.substr(0, strategy.find('+')));
     if (strategy.find("seed:") == 0) st.label("strategy:seed(any)");
+    if (strategy.find("wide-precedence-values") != std::string::npos) st.label("precedence-values-beyond-8-bits");
     st.label(c.tmpl == 0 ? "template:T36" : c.tmpl == 1 ? "template:T20" : "template:TK");
     { size_t mx = 0; for (auto& r : g.rules) mx = std::max(mx, r.rhs.size()); if (mx >= 5) st.label("rule-arity>=5"); }
-    { bool far = false, deepi = false; for (auto& in : c.inputs) { if (in.text.size() > 65536) far = true; else if (in.text.size() > 1000 && in.text.size() < 65000) deepi = true; } if (far) st.label("input-with-term-beyond-64KiB"); if (deepi) st.label("input-longer-than-1000-terms"); }
+    { bool far = false, deepi = false, many = false; for (auto& in : c.inputs) { if (in.text.size() > 65536) far = true; else if (in.text.size() > 1000 && in.text.size() < 65000) deepi = true; if (far && in.text.find_first_not_of(" \t\n\r\v\f") != std::string::npos) { size_t nb = 0; for (char ch : in.text) if ((unsigned char)ch > 32) ++nb; if (nb > 65536) many = true; } } if (far) st.label("input-with-term-beyond-64KiB"); if (deepi) st.label("input-longer-than-1000-terms"); if (many) st.label("input-with-more-than-65536-terms"); }
     if (pr.an.left_rec) st.label("left-rec");
     if (pr.an.right_rec) st.label("right-rec");
     if (pr.an.mutual_rec) st.label("mutual-left-rec");
@@ -298,7 +299,8 @@ static GCase gen_case(Choice& ch, gg::Flavor fl, size_t n_random, bool bad_chars
         size_t pos = 0, want = rng.below(3);   // in front of the first, second or third token
         for (size_t i = 0, seen = 0; i < in.text.size() && seen < want; ++i) { if ((unsigned char)in.text[i] > 32) ++seen; pos = i + 1; }
         std::string pad(65500 + rng.below(80), rng.chance(1, 3) ? '\t' : ' ');
-        if (in.skip_nl && rng.chance(1, 2)) pad[rng.below(uint32_t(pad.size()))] = '\n';
+        if (in.skip_nl && rng.chance(1, 4)) pad.assign(pad.size(), '\n');                     // line numbers beyond 65535
+        else if (in.skip_nl && rng.chance(1, 2)) pad[rng.below(uint32_t(pad.size()))] = '\n';
         in.text.insert(pos, pad);
         c.inputs.push_back(in);
     }
@@ -307,6 +309,7 @@ static GCase gen_case(Choice& ch, gg::Flavor fl, size_t n_random, bool bad_chars
         // one or two very deep sentences: the parse stacks grow past their initial reservation of 1024 entries
         std::vector<int> toks;
         size_t n = 1030 + ch.below(4) * 520;
+        if (rng.chance(1, 6)) n = 65600 + rng.below(4000);          // a target above 20000 asks for that many TERMS: more than 65535 terms in one input
         if (gg::deep_sentence(c.g, an, n, rng, toks)) { c.inputs.push_back(gg::Input{gg::render(toks, nullptr)}); if (!toks.empty() && rng.chance(1, 2)) { toks.resize(toks.size() - 1 - rng.below(uint32_t(std::min<size_t>(toks.size() - 1, 3)))); c.inputs.push_back(gg::Input{gg::render(toks, nullptr)}); } }
     }
     return c;
